@@ -12,7 +12,7 @@
 From Coq Require Import ZArith List Bool Sorting.Sorted.
 From RV Require Import Base.Wire Base.Text Lang.Escape Lang.Sections Proofs.EscapeP Proofs.SectionsP.
 From RV Require Import Lang.StmtAst Lang.Transl Lang.Scope Proofs.ScopeP.
-From RV Require Lang.Headers Proofs.HeadersP Lang.FnSelect Proofs.FnSelectP.
+From RV Require Lang.Headers Proofs.HeadersP Lang.FnSelect Proofs.FnSelectP Lang.CAst.
 From RV Require Lang.EmitScope Proofs.EmitScopeP Lang.Globals Proofs.GlobalsP.
 Import ListNotations.
 Open Scope Z_scope.
@@ -89,6 +89,11 @@ Example C06_escape_nonvacuous :
   clex_string (c_literal s ++ [59]) = Some (s, [59]).
 Proof. exact roundtrip_demo. Qed.
 Print Assumptions C06_escape_nonvacuous.
+
+(* the expression printer of unit C01_expr (Lang/CAst.v: print_c of a string literal) writes literals with this very function *)
+Theorem C06_same_escape_in_expression_printer : forall s : text, CAst.escape s = escape s.
+Proof. exact cast_escape_same. Qed.
+Print Assumptions C06_same_escape_in_expression_printer.
 
 (* escaping lengthens by one per backslash / quote / LF / CR / tab and by three per other control character *)
 Theorem C06_escape_length : forall s : text,
